@@ -208,7 +208,8 @@ Theorem contains_not_linearizable :
            (merges (tagged 0%nat [CSet 2 None 20]) (tagged 1%nat [CSet 1 None 10; CContains 1; CContains 2])).
 Proof.
   eexists. split; [vm_compute; reflexivity|]. split; [reflexivity|]. split; [reflexivity|]. split; [reflexivity|].
-  vm_compute. repeat constructor; discriminate.
+  apply Forall_forall. intros L H. vm_compute in H.
+  repeat (destruct H as [<-|H]; [vm_compute; discriminate|]). destruct H.
 Qed.
 
 (** non-vacuity: report-type sets, gets and lock-free lookups interleaved to completion *)
